@@ -25,6 +25,7 @@ def run(ctx, rep):
                 "table; each writer/reader pair is decided by finite composition over character classes. Opcode tables are compared as "
                 "extracted constants (names array, id constants, dispatch switch).")
     rep.assume("NUL inside an argument is outside the property's alphabet")
+    _codecs.fresh_output_files(F, rep, "C18.fresh-file", ["compiler", "bytecode_dev_transpiler"], 2)
     rep.assume("a character not compared against any constant by the reader behaves like the class representative")
     try:
         rf, tab = _codecs.reader(F)
@@ -34,7 +35,10 @@ def run(ctx, rep):
         n2 = _codecs.normalise(rows2, F)
     except codec.ShapeChanged as e:
         rep.ob("C18.roundtrip", "extract codec tables", "undecided", "ANCHOR-SHAPE-CHANGED: %s" % e, None)
+        # fail closed: a writer/reader the extractor cannot read is not a pass (exit 2, no VIOLATION line)
+        rep.floor("C18.codec tables extracted (writer/reader in a form the extractor understands)", 0, 1)
         return
+    rep.floor("C18.codec tables extracted (writer/reader in a form the extractor understands)", 1, 1)
     rep.extra["writer_W1_text"] = [{"when": r["cond_text"], "per_argument_output": codec.expr_str(r["expr"])} for r in n1]
     rep.extra["writer_W2"] = [{"when": r["cond_text"], "per_argument_output": codec.expr_str(r["expr"])} for r in n2]
     rep.floor("C18.reader transitions", len(tab.delta), 40)
